@@ -145,7 +145,7 @@ pub proof fn lemma_len_is_cardinality(m: MapB, w: MapW)
             let o = choose|o: nat| #[trigger] is_key(kw, o) && kkey(kw, o) == k;
             reveal(all_on_chains);
             let b = bucket_of(k, n);
-            assert(0 <= b < n) by { assert(n >= 8); }
+            lemma_bucket_range(k, n);
             assert(cs[b].contains(o));
             lemma_flat_contains(cs, o);
             let i = choose|i: int| 0 <= i < f.len() && f[i] == o;
